@@ -178,6 +178,7 @@ pub fn run_all(run: &mut Run, rng: &mut Rng, thorough: bool) {
     challenge_histories(run, rng, &env, thorough);
     // ---- TURN over TCP: `TurnClient::send` frames every message with a 2-byte length (RFC 4571)
     tcp_framing(run, rng, &env, thorough);
+    tcp_recv_buffer(run, rng, &env, thorough);
     // ---- Allocate dialogue (401 challenge, then success) against a scripted reference-crate server
     for _ in 0..(if thorough { 300 } else { 40 }) { allocate_dialogue(run, rng, &env); }
     // ---- receive side: handle_turn_packet
@@ -282,6 +283,52 @@ fn tcp_framing(run: &mut Run, rng: &mut Rng, env: &Env, thorough: bool) {
     }
 }
 
+/// `TurnClient::recv` over TCP with the RUNNER's buffer size (1500 bytes, `IceTransportRunner::run_turn_read_loop`):
+/// messages whose on-the-wire size is around the buffer size. A frame that does not fit is an error (never a
+/// slice out of range); one that fits is returned exactly. A fresh connection per case (an error leaves the
+/// stream out of sync).
+fn tcp_recv_buffer(run: &mut Run, rng: &mut Rng, env: &Env, thorough: bool) {
+    use tokio::io::AsyncWriteExt;
+    let mut sizes: Vec<(usize, bool, usize)> = vec![];
+    for dl in 1488..=1502usize { sizes.push((1500, true, dl)); }            // ChannelData: 4 + dl + pad vs 1500
+    for body in [1472usize, 1476, 1480, 1484, 1488] { sizes.push((1500, false, body)); }   // STUN: 20 + body vs 1500
+    // buffer sizes that are not a multiple of four (no caller in the tree uses one; `recv` is generic in the buffer):
+    // here the unpadded length may fit while the padded wire image does not
+    for buf in [1497usize, 1498, 1499, 1501] { for dl in 1490..=1498usize { sizes.push((buf, true, dl)); } }
+    for _ in 0..(if thorough { 40 } else { 6 }) { sizes.push((1500, rng.chance(1, 2), rng.range(0, 3000) as usize)); }
+    for (runner_buf, chan, n) in sizes {
+        #[allow(non_snake_case)] let RUNNER_BUF = runner_buf;
+        let wire: Vec<u8> = if chan {
+            let ch = rng.range(0x4000, 0x7fff) as u16;
+            let mut m = vec![(ch >> 8) as u8, ch as u8, (n >> 8) as u8, n as u8]; m.extend(rng.bytes(n)); m.extend(std::iter::repeat_n(0u8, (4 - n % 4) % 4)); m
+        } else {
+            // a Data indication whose DATA attribute fills the body: 20-byte header + 4 + value (+ padding)
+            let v = n.saturating_sub(4) / 4 * 4; let body = 4 + v;
+            let mut m = vec![0x00, 0x17, (body >> 8) as u8, body as u8, 0x21, 0x12, 0xA4, 0x42]; m.extend(rng.bytes(12));
+            m.extend_from_slice(&[0x00, 0x13, (v >> 8) as u8, v as u8]); m.extend(rng.bytes(v)); m
+        };
+        let w2 = wire.clone();
+        let res = crate::catch(std::panic::AssertUnwindSafe(|| env.rt.block_on(async {
+            let l = tokio::net::TcpListener::bind("127.0.0.1:0").await.unwrap();
+            let c = tokio::net::TcpStream::connect(l.local_addr().unwrap()).await.unwrap();
+            let (mut s, _) = l.accept().await.unwrap();
+            let client = TurnClient::verif_new_tcp(c);
+            s.write_all(&w2).await.unwrap();
+            let mut buf = vec![0u8; RUNNER_BUF];
+            match tokio::time::timeout(Duration::from_millis(1500), client.verif_recv(&mut buf)).await { Ok(Ok(k)) => { buf.truncate(k); format!("ok {}", hex(&buf)) } Ok(Err(_)) => "toobig".to_string(), Err(_) => "needmore".to_string() }
+        })));
+        let out = match res { Ok(o) => o, Err(_) => "panic".to_string() };
+        let case = format!("tcprecv {RUNNER_BUF} {}", hex(&wire));
+        run.case("tcprecv", &format!("{RUNNER_BUF} {}", hex(&wire)), &out, true);
+        // oracle from RFC 5766 §11.5: the message (without padding) or an error, never a panic, never other bytes
+        let msg_len = if chan { 4 + n } else { wire.len() };
+        if out == "panic" { run.fail(&format!("codec:turn:tcp-stream:recv:panic:{}", if chan { "channel-data" } else { "stun" }), &case, &format!("on-wire {} bytes, buffer {RUNNER_BUF}", wire.len())); }
+        else if wire.len() <= RUNNER_BUF { if out != format!("ok {}", hex(&wire[..msg_len])) { run.fail(&format!("codec:turn:tcp-stream:recv:message-that-fits-the-buffer-not-returned:{}", if chan { "channel-data" } else { "stun" }), &case, &out[..out.len().min(80)]); } }
+        else if out.starts_with("ok") { run.fail("codec:turn:tcp-stream:recv:message-larger-than-buffer-returned", &case, &out[..out.len().min(80)]); }
+        run.count(&format!("tcp_recv_buffer_{}", if wire.len() <= RUNNER_BUF { "fits" } else { "too_big" }));
+    }
+}
+
 /// MESSAGE-INTEGRITY of `bytes` under the long-term key derived (by the reference crate) from the USERNAME and
 /// REALM the message itself carries and the account's password
 fn verifies_under_own_realm(bytes: &[u8], password: &str) -> Result<(), String> {
@@ -336,6 +383,190 @@ fn challenge_histories(run: &mut Run, rng: &mut Rng, env: &Env, thorough: bool) 
             } else { run.count("udp_loopback_loss"); }
             run.count(&format!("challenge_history_{step_class}"));
         }
+    }
+}
+
+fn error_reply(tx: [u8; 12], method: Method, code: u16, realm: &str, nonce: &str) -> Vec<u8> {
+    server_reply(tx, method, CLASS_ERROR_RESPONSE, &[(ATTR_ERROR_CODE, vec![0, 0, (code / 100) as u8, (code % 100) as u8, b'x']),
+        (ATTR_REALM, realm.as_bytes().to_vec()), (ATTR_NONCE, nonce.as_bytes().to_vec())], None, None)
+}
+
+/// The CALL SITES that feed the request builders (`refresh_one_turn_client` via `run_turn_refresh`): which
+/// realm / nonce of a 401 / 438 go to `update_nonce`, the retry-once logic, the order Refresh → CreatePermission
+/// (selected pair's remote) → ChannelBind (every bound peer). A scripted server (reference crate) challenges the
+/// first `ch[m]` requests of each method; responses are delivered through the real `handle_turn_packet`.
+pub fn refresh_callsite_case(run: &mut Run, seed: u64, ch: [u8; 3]) {
+    let mut rng = Rng::new(seed);
+    let rng = &mut rng;
+    let env = Env::new();
+    let case = format!("turnrefresh {seed} {} {} {}", ch[0], ch[1], ch[2]);
+    let mut cr = Creds::make(rng);
+    if cr.realm.is_empty() { cr.realm = "r".into(); }
+    env.client.verif_set_auth(&cr.user, &cr.pass, &cr.realm, &cr.nonce);
+    let relayed: SocketAddr = "203.0.113.7:50000".parse().unwrap();
+    let peer: SocketAddr = "198.51.100.9:40000".parse().unwrap();
+    let channel = 0x4000 + rng.below(0x3fff) as u16;
+    env.rt.block_on(env.client.verif_add_channel(peer, channel));
+    let (t, _runner) = IceTransport::new(rustrtc::RtcConfiguration::default());
+    t.verif_add_turn_client(relayed, env.client.clone());
+    let lc = rustrtc::verif_hooks::ice::candidate::relay(relayed, 1, "udp");
+    let rc = rustrtc::transports::ice::IceCandidate::host(peer, 1);
+    t.verif_set_selected_pair(Some(rustrtc::transports::ice::IceCandidatePair::new(lc, rc)));
+    t.verif_set_state(rustrtc::transports::ice::IceTransportState::Connected);
+    // (method index, request bytes, credentials the request must carry)
+    let log: std::cell::RefCell<Vec<(usize, Vec<u8>, Creds)>> = Default::default();
+    let methods = [METHOD_REFRESH, METHOD_CREATE_PERMISSION, METHOD_CHANNEL_BIND];
+    let t2 = t.clone(); let client = env.client.clone();
+    let finished = env.rt.block_on(async {
+        let srv = async {
+            let mut seen = [0u8; 3];
+            let mut cur = cr.clone();
+            let mut buf = vec![0u8; 4096];
+            let mut k = 0u32;
+            loop {
+                let Ok((n, _)) = env.server.recv_from(&mut buf).await else { continue };
+                let bytes = buf[..n].to_vec();
+                let mut m = Message::new(); m.raw = bytes.clone();
+                if m.decode().is_err() { continue; }
+                let Some(mi) = methods.iter().position(|x| *x == m.typ.method) else { continue };
+                log.borrow_mut().push((mi, bytes.clone(), cur.clone()));
+                seen[mi] += 1;
+                let tx = m.transaction_id.0;
+                let resp = if seen[mi] <= ch[mi] {
+                    k += 1;
+                    let (realm, nonce) = (if k % 2 == 1 { format!("realm-{k}-é") } else { cur.realm.clone() }, format!("nonce-{k}"));
+                    // the client adopts the challenge only on its first attempt of a method
+                    if seen[mi] == 1 { cur.realm = realm.clone(); cur.nonce = nonce.clone(); }
+                    error_reply(tx, m.typ.method, if k % 3 == 0 { 401 } else { 438 }, &realm, &nonce)
+                } else { server_reply(tx, m.typ.method, CLASS_SUCCESS_RESPONSE, &[], None, None) };
+                t2.verif_handle_turn_packet(&resp, &client, relayed).await;
+            }
+        };
+        tokio::select! { biased; _ = t.verif_run_turn_refresh() => true, _ = srv => false, _ = tokio::time::sleep(Duration::from_secs(4)) => false }
+    });
+    let log = log.into_inner();
+    if !finished { run.fail("agent-turn:refresh:pass-did-not-finish", &case, &format!("{} requests seen", log.len())); }
+    let names = ["refresh", "create-permission", "channel-bind"];
+    // order and count: per method min(challenges, 1) + 1 requests, methods in order
+    let want: Vec<usize> = (0..3).flat_map(|mi| std::iter::repeat_n(mi, 1 + ch[mi].min(1) as usize)).collect();
+    let got: Vec<usize> = log.iter().map(|l| l.0).collect();
+    if got != want { run.fail(&format!("agent-turn:refresh:request-sequence:{}", if got.len() < want.len() { "stale-nonce-not-retried-or-step-missing" } else { "unexpected-extra-request" }), &case, &format!("{got:?} vs {want:?}")); }
+    for (i, (mi, bytes, creds)) in log.iter().enumerate() {
+        let kind = names[*mi];
+        let tx: [u8; 12] = bytes[8..20].try_into().unwrap();
+        let c2 = format!("{case} request#{i} {kind}");
+        let mkind = ["refresh", "perm", "bind"][*mi];
+        let _ = case_req(run, mkind, &tx, Some(creds), if *mi == 0 { None } else { Some(peer) }, if *mi == 0 { 600 } else if *mi == 2 { channel as u32 } else { 0 }, &[], bytes);
+        let expect: Vec<(AttrType, Vec<u8>)> = match mi { 0 => vec![(ATTR_LIFETIME, 600u32.to_be_bytes().to_vec())], 2 => vec![(ATTR_CHANNEL_NUMBER, vec![(channel >> 8) as u8, channel as u8, 0, 0])], _ => vec![] };
+        oracle_request(run, &c2, &format!("refresh-callsite:{kind}"), bytes, &tx, methods[*mi], CLASS_REQUEST, Some(creds), if *mi == 0 { None } else { Some(peer) }, &expect);
+        if let Err(e) = verifies_under_own_realm(bytes, &cr.pass) { run.fail(&format!("agent-turn:refresh:{kind}:message-integrity-not-under-realm-in-message"), &c2, &e); }
+    }
+    run.count(&format!("turn_refresh_callsite_{}{}{}", ch[0], ch[1], ch[2]));
+    t.stop();
+}
+
+/// The relay path of `perform_binding_check`: CreatePermission for the remote, then (only after success)
+/// ChannelBind, `add_channel` only on a ChannelBind success, and the connectivity check itself through the relay —
+/// as ChannelData on the bound channel, otherwise as a Send indication. `script`: 0 = both succeed,
+/// 1 = ChannelBind refused, 2 = CreatePermission refused.
+pub fn relay_check_case(run: &mut Run, seed: u64, script: u8, controlling: bool) {
+    use rustrtc::transports::ice::{IceCandidate, IceParameters, IceRole, IceTransportState};
+    let mut rng = Rng::new(seed);
+    let rng = &mut rng;
+    let env = Env::new();
+    let case = format!("relaycheck {seed} {script} {}", controlling as u8);
+    let cr = Creds::make(rng);
+    env.client.verif_set_auth(&cr.user, &cr.pass, &cr.realm, &cr.nonce);
+    let relayed: SocketAddr = "203.0.113.7:50000".parse().unwrap();
+    let peer: SocketAddr = "198.51.100.9:40000".parse().unwrap();
+    let mut cfg = rustrtc::RtcConfiguration::default();
+    cfg.stun_timeout = Duration::from_millis(300); cfg.nomination_timeout = Duration::from_millis(300);
+    let (t, _runner) = IceTransport::new(cfg);
+    let role = if controlling { IceRole::Controlling } else { IceRole::Controlled };
+    t.set_role(role);
+    t.set_remote_parameters(IceParameters::new(super::agent::REMOTE_UFRAG, super::agent::REMOTE_PWD));
+    t.verif_set_state(IceTransportState::Checking);
+    t.verif_add_turn_client(relayed, env.client.clone());
+    let lc = rustrtc::verif_hooks::ice::candidate::relay(relayed, 1, "udp");
+    t.verif_add_local_candidate(lc.clone());
+    t.verif_add_remote_candidate_quiet(IceCandidate::host(peer, 1));
+    let log: std::cell::RefCell<Vec<Vec<u8>>> = Default::default();
+    let t2 = t.clone(); let client = env.client.clone();
+    env.rt.block_on(async {
+        let srv = async {
+            let mut buf = vec![0u8; 4096];
+            loop {
+                let Ok((n, _)) = env.server.recv_from(&mut buf).await else { continue };
+                let bytes = buf[..n].to_vec();
+                log.borrow_mut().push(bytes.clone());
+                if bytes[0] >> 6 != 0 { continue; }                       // ChannelData
+                let mut m = Message::new(); m.raw = bytes.clone();
+                if m.decode().is_err() || m.typ.class != CLASS_REQUEST { continue; }
+                let tx = m.transaction_id.0;
+                let refuse = (m.typ.method == METHOD_CREATE_PERMISSION && script == 2) || (m.typ.method == METHOD_CHANNEL_BIND && script == 1);
+                let resp = if refuse { server_reply(tx, m.typ.method, CLASS_ERROR_RESPONSE, &[(ATTR_ERROR_CODE, vec![0, 0, 4, 3, b'x'])], None, None) }
+                    else { server_reply(tx, m.typ.method, CLASS_SUCCESS_RESPONSE, &[], None, None) };
+                t2.verif_handle_turn_packet(&resp, &client, relayed).await;
+            }
+        };
+        tokio::select! { biased; _ = t.verif_run_connectivity_checks() => {}, _ = srv => {}, _ = tokio::time::sleep(Duration::from_secs(4)) => {} }
+    });
+    rustrtc::verif_hooks::ice::pairs::take();
+    let log = log.into_inner();
+    // classify what the server saw
+    let mut kinds: Vec<String> = vec![];
+    let mut bound_channel: Option<u16> = None;
+    for b in &log {
+        if b[0] >> 6 == 1 {
+            let chn = u16::from_be_bytes([b[0], b[1]]); let l = u16::from_be_bytes([b[2], b[3]]) as usize;
+            kinds.push("channel-data".into());
+            if Some(chn) != bound_channel { run.fail("agent-turn:relay-check:channel-data-on-a-channel-that-was-not-bound", &case, &format!("{chn:#x} vs {bound_channel:?}")); }
+            if let Some(inner) = b.get(4..4 + l) { super::agent::check_request(run, &case, &t, role, lc.priority, &super::agent::Seen { from: relayed, to: 0, bytes: inner.to_vec() }, Some(false)); }
+            continue;
+        }
+        let mut m = Message::new(); m.raw = b.clone();
+        if m.decode().is_err() { kinds.push("undecodable".into()); continue; }
+        let tx: [u8; 12] = m.transaction_id.0;
+        if m.typ == MessageType::new(METHOD_CREATE_PERMISSION, CLASS_REQUEST) {
+            kinds.push("create-permission".into());
+            let c2 = case_req(run, "perm", &tx, Some(&cr), Some(peer), 0, &[], b);
+            oracle_request(run, &c2, "relay-check:create-permission", b, &tx, METHOD_CREATE_PERMISSION, CLASS_REQUEST, Some(&cr), Some(peer), &[]);
+        } else if m.typ == MessageType::new(METHOD_CHANNEL_BIND, CLASS_REQUEST) {
+            kinds.push("channel-bind".into());
+            let chn = m.get(ATTR_CHANNEL_NUMBER).ok().map(|v| u16::from_be_bytes([v[0], v[1]])).unwrap_or(0);
+            if !(0x4000..=0x7fff).contains(&chn) { run.fail("agent-turn:relay-check:channel-number-range", &case, &format!("{chn:#x}")); }
+            if script != 1 { bound_channel = Some(chn); }
+            let c2 = case_req(run, "bind", &tx, Some(&cr), Some(peer), chn as u32, &[], b);
+            oracle_request(run, &c2, "relay-check:channel-bind", b, &tx, METHOD_CHANNEL_BIND, CLASS_REQUEST, Some(&cr), Some(peer), &[(ATTR_CHANNEL_NUMBER, vec![(chn >> 8) as u8, chn as u8, 0, 0])]);
+        } else if m.typ == MessageType::new(METHOD_SEND, CLASS_INDICATION) {
+            kinds.push("send-indication".into());
+            let mut x = XorMappedAddress::default();
+            if x.get_from_as(&m, ATTR_XOR_PEER_ADDRESS).is_err() || x.ip != peer.ip() || x.port != peer.port() { run.fail("agent-turn:relay-check:send-indication-peer", &case, ""); }
+            if let Ok(inner) = m.get(ATTR_DATA) { super::agent::check_request(run, &case, &t, role, lc.priority, &super::agent::Seen { from: relayed, to: 0, bytes: inner }, Some(false)); }
+            else { run.fail("agent-turn:relay-check:send-indication-without-data", &case, ""); }
+        } else { kinds.push(format!("other:{}", m.typ)); }
+    }
+    let want: Vec<&str> = match script { 0 => vec!["create-permission", "channel-bind", "channel-data"], 1 => vec!["create-permission", "channel-bind", "send-indication"], _ => vec!["create-permission"] };
+    if kinds != want { run.fail(&format!("agent-turn:relay-check:message-sequence:{}", ["bind-accepted", "bind-refused", "permission-refused"][script as usize]), &case, &format!("{kinds:?} vs {want:?}")); }
+    let ch_now = env.rt.block_on(env.client.verif_get_peer(bound_channel.unwrap_or(0x4000)));
+    if script == 1 && env.rt.block_on(async { let mut any = false; for c in 0x4000u16..0x4010 { if env.client.verif_get_peer(c).await.is_some() { any = true; } } any }) { run.fail("agent-turn:relay-check:channel-added-although-bind-was-refused", &case, ""); }
+    if script == 0 && ch_now != Some(peer) { run.fail("agent-turn:relay-check:channel-not-added-after-successful-bind", &case, &format!("{ch_now:?}")); }
+    run.count(&format!("turn_relay_check_script{script}"));
+    t.stop();
+}
+
+pub fn callsite_cases(run: &mut Run, rng: &mut Rng, thorough: bool) {
+    for ch in [[0u8, 0, 0], [1, 0, 0], [0, 1, 0], [0, 0, 1], [1, 1, 1], [2, 0, 0], [0, 2, 2]] { refresh_callsite_case(run, rng.next(), ch); }
+    for _ in 0..(if thorough { 20 } else { 0 }) { refresh_callsite_case(run, rng.next(), [rng.below(3) as u8, rng.below(3) as u8, rng.below(3) as u8]); }
+    for script in 0..3u8 { for controlling in [true, false] { relay_check_case(run, rng.next(), script, controlling); } }
+}
+
+pub fn replay(run: &mut Run, case: &str) -> bool {
+    let f: Vec<&str> = case.split(' ').collect();
+    match f[0] {
+        "turnrefresh" if f.len() >= 5 => { refresh_callsite_case(run, f[1].parse().unwrap(), [f[2].parse().unwrap(), f[3].parse().unwrap(), f[4].parse().unwrap()]); true }
+        "relaycheck" if f.len() >= 4 => { relay_check_case(run, f[1].parse().unwrap(), f[2].parse().unwrap(), f[3] == "1"); true }
+        _ => false,
     }
 }
 
